@@ -586,6 +586,42 @@ def purity(ctx, world):
                     ctx.fail("A9.pure", inst, f"{inst}:mutates", loc_of(mod, muts[0]), f"{inst} mutates its parameter in place: `{norm_text(muts[0])[:70]}`", "grad of f(x) = g(x) + g(x) style fan-out: vs.add() is used exactly when the previous buffer is NOT owned")
                 else:
                     ctx.ob("A9.pure", inst, True, loc_of(mod, st))
+            if st.name == "_add" and len(st.args.args) == 3:
+                # add_outgrads marks the result of vs.add(prev, g) as owned: it must be newly allocated on every path,
+                # never one of the operands themselves (or a view of one)
+                from ..tutil import cases as _cases, expand as _expand, unseq as _unseq
+
+                try:
+                    r_, sy_, m_, fn_, sc_ = eval_function(world, mod.name, f"{cls.name}._add")
+                except Exception:
+                    r_ = None
+                if r_ is not None:
+                    ops_ = [sy_["#1"], sy_["#2"]]
+                    VIEWS = {"asarray", "asanyarray", "ravel", "reshape", "real", "squeeze", "broadcast_to", "transpose", "atleast_1d", "atleast_2d", "atleast_3d", "view", "swapaxes", "expand_dims"}
+
+                    def alias_of(t, depth=0):
+                        if any(t is o for o in ops_):
+                            return t
+                        if depth > 4:
+                            return None
+                        if t.op in ("sub", "attr") and t.op == "sub":
+                            return alias_of(t.obj, depth + 1)
+                        if t.op == "attr" and t.name in ("T", "real", "imag", "flat"):
+                            return alias_of(t.obj, depth + 1)
+                        if t.op == "call":
+                            nm_ = t.fn.name if t.fn.op == "attr" else (t.fn.ref.qual.rsplit(".", 1)[-1] if t.fn.op == "ref" else None)
+                            if nm_ in VIEWS:
+                                if t.fn.op == "attr":
+                                    return alias_of(t.fn.obj, depth + 1)
+                                return alias_of(t.args[0], depth + 1) if t.args else None
+                        return None
+
+                    bad_ = [c for c in _cases(_unseq(_expand(world.ev, r_, ()))) if c.leaf.op != "raise" and alias_of(c.leaf) is not None]
+                    n += 1
+                    if bad_:
+                        ctx.fail("A9.pure", inst + ":fresh", f"{inst}:returns-operand", loc_of(mod, st), f"{inst} returns one of its operands (or a view of it) on some path instead of a newly allocated sum: `{str(bad_[0].leaf)[:60]}`", "a value with three contributions the second of which is zero (an inactive branch): the first contribution's buffer, not owned by autograd, is then accumulated into in place")
+                    else:
+                        ctx.ob("A9.pure", inst + ":fresh", True, loc_of(mod, st))
             elif st.name == "_mut_add":
                 n += 1
                 first = st.args.args[1].arg if len(st.args.args) > 1 else None
@@ -952,6 +988,20 @@ def _fresh_at(world, mod, fnode, name, params, local_defs, site, fq):
             return True, ok_callers
         return False, "a parameter (borrowed from the caller)"
     if name not in local_defs:
+        outer = getattr(fnode, "_parent", None)
+        if isinstance(outer, ast.FunctionDef) and isinstance(fnode, ast.FunctionDef) and _only_called_inside(outer, fnode):
+            # a nested helper that never leaves its enclosing function works on that invocation's own storage: the
+            # captured variable is owned exactly when the enclosing function allocated it on every definition
+            odefs = _local_defs_of(outer)
+            oparams = {a.arg for a in outer.args.posonlyargs + outer.args.args + outer.args.kwonlyargs}
+            if name in odefs and name not in oparams:
+                bad_ = None
+                for d in odefs[name]:
+                    ok, why = _fresh_expr(world, mod, d, odefs, oparams)
+                    if not ok:
+                        bad_ = why
+                if bad_ is None:
+                    return True, "working storage allocated by the enclosing function on every definition; the nested helper is only called there"
         return False, "a captured or global variable (not allocated by this function)"
     if isinstance(site, ast.AugAssign) and isinstance(site.target, ast.Name) and _scalar_local(fnode, name, site):
         return True, "augmented assignment to an integer-valued local (compared as a scalar, stepped by an int literal): a rebinding, not a mutation"
@@ -964,6 +1014,17 @@ def _fresh_at(world, mod, fnode, name, params, local_defs, site, fq):
     if why_bad is None:
         return True, "local bound to freshly allocated memory on every definition"
     return False, f"bound to {why_bad}"
+
+
+def _only_called_inside(outer, inner):
+    """every use of the nested function's name inside `outer` is a direct call (it is not returned, stored, passed on
+    or yielded), so no reference to it outlives the invocation of `outer`"""
+    for x in ast.walk(outer):
+        if isinstance(x, ast.Name) and x.id == inner.name and isinstance(x.ctx, ast.Load):
+            p = getattr(x, "_parent", None)
+            if not (isinstance(p, ast.Call) and p.func is x):
+                return False
+    return True
 
 
 # ----------------------------------------------------------------------------------------- A10 closure re-use
@@ -997,7 +1058,7 @@ def closure_reuse(ctx, world):
         for x in ast.walk(fn):
             if isinstance(x, ast.Assign) and len(x.targets) == 1 and isinstance(x.targets[0], ast.Name):
                 v = x.value
-                if isinstance(v, ast.GeneratorExp) or (isinstance(v, ast.Call) and isinstance(v.func, ast.Name) and v.func.id in ONE_SHOT):
+                if _is_one_shot_expr(world, mod, v, 0):
                     if _encl(x) is fn or _encl(x) in inner:
                         oneshot[x.targets[0].id] = (x, _encl(x))
         for clo in inner:
@@ -1044,6 +1105,28 @@ def closure_reuse(ctx, world):
             else:
                 ctx.ob("A10", inst, True, loc_of(mod, clo))
     ctx.floor("A10 closures", n, 120)
+
+
+def _is_one_shot_expr(world, mod, v, depth):
+    """does the expression evaluate to a one-shot iterator: a generator expression, map/zip/filter/iter/..., a call of
+    a generator function, or a call of a repo helper that returns one of these (two levels)"""
+    if isinstance(v, ast.GeneratorExp):
+        return True
+    if isinstance(v, ast.IfExp):
+        return _is_one_shot_expr(world, mod, v.body, depth) or _is_one_shot_expr(world, mod, v.orelse, depth)
+    if not isinstance(v, ast.Call):
+        return False
+    if isinstance(v.func, ast.Name) and v.func.id in ONE_SHOT and world.repo.resolve(mod, v.func.id) is not None and world.repo.resolve(mod, v.func.id).qual == "builtins." + v.func.id:
+        return True
+    r = world.repo.resolve_expr(mod, v.func) if isinstance(v.func, (ast.Name, ast.Attribute)) else None
+    if r is not None and r.qual in ("itertools.chain", "itertools.starmap", "itertools.islice", "itertools.count", "itertools.repeat", "itertools.accumulate", "itertools.product", "itertools.compress", "itertools.takewhile", "itertools.dropwhile", "itertools.zip_longest"):
+        return True
+    if depth < 2 and r is not None and r.kind == "repo" and isinstance(r.node, ast.FunctionDef) and not r.node.decorator_list:
+        own = [x for st in r.node.body for x in ast.walk(st) if _encl(x) is r.node]
+        if any(isinstance(x, (ast.Yield, ast.YieldFrom)) for x in own):
+            return True
+        return any(isinstance(x, ast.Return) and x.value is not None and _is_one_shot_expr(world, r.mod, x.value, depth + 1) for x in own)
+    return False
 
 
 def _closure_locals(clo):
